@@ -12,6 +12,7 @@ pub struct PreProcessor<T: TokenStream> {
     token_stream: T,
     macros: HashSet<EcoString>,
     error: Option<EcoString>,
+    open_conditionals: usize,
 }
 
 impl<T: TokenStream> TokenStream for PreProcessor<T> {
@@ -42,6 +43,7 @@ impl<T: TokenStream> PreProcessor<T> {
             token_stream,
             macros: HashSet::new(),
             error: None,
+            open_conditionals: 0,
         }
     }
 
@@ -60,6 +62,10 @@ impl<T: TokenStream> PreProcessor<T> {
             T![#else] => self.process_else(),
             T![#endif] => self.process_endif(),
             T![#define] => self.process_define(),
+            TokenKind::Eof if self.open_conditionals > 0 => {
+                self.open_conditionals = 0;
+                self.error("reached EOF without matching #endif")
+            }
             kind => kind,
         }
     }
@@ -76,6 +82,7 @@ impl<T: TokenStream> PreProcessor<T> {
                 let macro_name = self.token_stream.text(start..end);
                 let macro_defined = self.macros.contains(macro_name);
 
+                self.open_conditionals += 1;
                 if let (IfKind::Defined, false) | (IfKind::NotDefined, true) =
                     (if_kind, macro_defined)
                 {
@@ -96,6 +103,7 @@ impl<T: TokenStream> PreProcessor<T> {
     }
 
     fn process_endif(&mut self) -> TokenKind {
+        self.open_conditionals = self.open_conditionals.saturating_sub(1);
         TokenKind::PreProcessor
     }
 
@@ -131,11 +139,14 @@ impl<T: TokenStream> PreProcessor<T> {
                 T![#endif] if depth >= 2 => {
                     depth -= 1;
                 }
-                T![#else] | T![#endif] if depth == 1 => {
+                T![#else] if depth == 1 => {
+                    break;
+                }
+                T![#endif] if depth == 1 => {
+                    self.open_conditionals = self.open_conditionals.saturating_sub(1);
                     break;
                 }
                 TokenKind::Eof => {
-                    self.error("reached EOF without matching #endif");
                     break;
                 }
                 _ => {}
